@@ -1,3 +1,3 @@
-import Driver.Loop
-/-! Driver for group `carrier`: replace `[]` by this group's handlers. -/
-def main : IO Unit := TF.Driver.run []
+import Driver.Carrier
+/-! Driver for group `carrier` (C02). -/
+def main : IO Unit := TF.Driver.run [TF.Driver.handleCarrier]
